@@ -271,6 +271,13 @@ def worker_init(repo, assertions=False):
     sys.setrecursionlimit(20000)
 
 
+def _depth(p):
+    d = [0] * (len(p) + 1)
+    for i, q in enumerate(p, 1):
+        d[i] = 0 if q == 0 else d[q] + 1
+    return max(d)
+
+
 @core.safe_worker
 def replay_chunk(args):
     lines, families, lockstep = args
@@ -286,8 +293,14 @@ def replay_chunk(args):
             out["per_kind"][query["q"]] = out["per_kind"].get(query["q"], 0) + 1
             try:
                 obs = core.call_with_deadline(lambda: perform(query, fam, par, ch))
-            except Exception as e:  # noqa: an unexpected exception (or a call that never returns) is an observation, too
+            except (Exception, core.Hang) as e:  # noqa: an unexpected exception (or a call that never returns) is an observation, too
                 obs = {"q": query["q"], "raised": "%s: %s" % (type(e).__name__, str(e)[:200])}
+            if obs.get("raised", "").startswith("RecursionError") and vec["k"] > 100 and _depth(vec["p"]) > 100:
+                # the interpreter's own recursion limits (the C stack's, which sys.setrecursionlimit does not lift) on a tree
+                # hundreds of levels deep -- e.g. SymlinkNode.height on a 300-level chain: not an observation about the library
+                out["n"] -= 1
+                out["recursion_limit"] = out.get("recursion_limit", 0) + 1
+                continue
             observed[fam] = obs
             if "raised" not in obs and same(query, obs):
                 out["same"] += 1
